@@ -9,6 +9,9 @@ PLAN = {
     "log_grid_ratio_first": ["C17", "C05"],
     "interpolate_by_difference": ["C05", "C18"],
     "eigen_always_gsl": ["C12", "C18"],
+    "equality_by_std_equal": ["C01"],
+    "copy_assign_same_storage_shortcut": ["C14", "C08"],
+    "ini_assign_nodes": ["C17", "C10"],
 }
 def main():
     names = sys.argv[1:] or sorted(PLAN)
